@@ -490,6 +490,23 @@ pub fn gen(r: &mut Rng, cases: usize, size: usize, extra: &[String], out: &mut O
             // more statements than a byte can number (256): anything that narrows a statement index
             let n = r.range(257.min(maxn), maxn);
             (n, gen_wide(r, n))
+        } else if profile == "deepund" {
+            // 10-12 statements, nothing decided by grounding in most cases, deep conditions rich in xor / iff:
+            // the enumerate-and-check routines create thousands of temporary nodes on ONE store
+            let n = r.range(10, 12);
+            let at = |i: usize| Box::new(F::Atom(i));
+            let acs = (0..n)
+                .map(|i| {
+                    let f = gen_f(r, n, 5);
+                    match r.below(4) {
+                        0 => F::Xor(at(i), Box::new(f)),
+                        1 => F::Iff(at((i + 1) % n), Box::new(f)),
+                        2 => F::Xor(Box::new(f), at((i + 2) % n)),
+                        _ => f,
+                    }
+                })
+                .collect();
+            (n, acs)
         } else if profile == "many" {
             // a small core plus k independent mutual-attack pairs: the core's candidates times 2^k, so
             // that thresholds on the NUMBER of candidates / models (dozens to hundreds) are crossed
@@ -616,6 +633,15 @@ pub fn gen(r: &mut Rng, cases: usize, size: usize, extra: &[String], out: &mut O
                 for p in ["native", "hybrid", "bio"] {
                     out.line(&format!("completefirst {p}"));
                 }
+                out.line("adump native");
+            }
+            "deepund" => {
+                for p in ["native", "hybrid"] {
+                    out.line(&format!("build {p}"));
+                }
+                out.line("stable native");
+                out.line("stable hybrid");
+                out.line("stablepre native");
                 out.line("adump native");
             }
             "many" => {
@@ -765,6 +791,11 @@ pub fn gen(r: &mut Rng, cases: usize, size: usize, extra: &[String], out: &mut O
                     out.line(&line_old.replace(&format!(" {p}"), &format!(" {p}fresh")));
                 }
                 out.line(&format!("memo {p}"));
+                // determinism: the same search twice on the used object and once on the twin must list
+                // the same interpretations in the same ORDER (nothing may depend on a hash map's iteration
+                // order, an address or the time); C11.ng_order_history_independent says the order does not even
+                // depend on the node table
+                out.line(&format!("detrepro {p} {} {}", HEUS[r.usize(3)], if r.bool() { "stable" } else { "twoval" }));
                 // LAST (the random search leaves its own nodes on the used object): a seeded Rand run
                 // must be reproducible on the used object and equal a twin's, whatever happened before
                 let mode = if r.bool() { "stable" } else { "twoval" };
@@ -1132,7 +1163,11 @@ impl Exec {
                 out.line(l);
                 out.flush();
                 match catch_unwind(AssertUnwindSafe(|| self.cliexport())) {
-                    Ok(Some(x)) => out.line(&x),
+                    Ok(Some(xs)) => {
+                        for x in xs {
+                            out.line(&x);
+                        }
+                    }
                     Ok(None) => out.line("~ bad-request"),
                     Err(_) => out.line("~ panic"),
                 }
@@ -1403,6 +1438,17 @@ impl Exec {
                 }
                 true
             }
+            "detrepro" if ws.len() == 4 => {
+                out.line(l);
+                out.flush();
+                let r = catch_unwind(AssertUnwindSafe(|| self.detrepro(ws[1], ws[2], ws[3] == "stable")));
+                match r {
+                    Ok(Some(s)) => out.line(&format!("~ {s}")),
+                    Ok(None) => out.line("~ bad-request"),
+                    Err(_) => out.line("~ panic"),
+                }
+                true
+            }
             "randrepro" if ws.len() == 5 => {
                 out.line(l);
                 out.flush();
@@ -1622,7 +1668,7 @@ impl Exec {
     }
 
     /// `--export` never overwrites; `--import` of the exported state gives the same answers
-    fn cliexport(&mut self) -> Option<String> {
+    fn cliexport(&mut self) -> Option<Vec<String>> {
         let n = self.n;
         if n == 0 {
             return None;
@@ -1665,7 +1711,7 @@ impl Exec {
         }
         let _ = std::fs::remove_file(&empty);
         let _ = std::fs::remove_file(&notes);
-        Some(if c1 == 0 && c2 == 0 && c3 == 0 && c4 == 0 && c5 == 0 && first == second && kept && direct == imported && !direct.is_empty() {
+        let verdict = if c1 == 0 && c2 == 0 && c3 == 0 && c4 == 0 && c5 == 0 && first == second && kept && direct == imported && !direct.is_empty() {
             "~ export ok".to_string()
         } else {
             format!(
@@ -1673,7 +1719,17 @@ impl Exec {
                 first == second,
                 direct == imported
             )
-        })
+        };
+        // the input TEXT and the REAL exported file (hex of their bytes) for the model driver: it parses the file with
+        // the verified JSON reader, compares the parsed state with the state the text-level CLI model builds from the
+        // text, re-prints it in the parsed map orders (must give the file byte for byte) and runs its `--import` arm
+        // on the file; the expected answer is the constant line below
+        let hex = |b: &[u8]| b.iter().map(|x| format!("{x:02x}")).collect::<String>();
+        Some(vec![
+            verdict,
+            format!("cliexportfile {} {}", hex(txt.as_bytes()), hex(&first)),
+            "= parsed=1 names=1 mapping=1 nodes=1 ac=1 cache=1 file=1 import=1".to_string(),
+        ])
     }
 
     /// one presentation of the current framework: permuted facts, sorting, renamed labels, layout
@@ -1874,6 +1930,31 @@ impl Exec {
     }
 
     /// `seed(S); Rand-search` twice on the used object and once on its twin: same answers, same order
+    fn detrepro(&mut self, p: &str, heu: &str, stable: bool) -> Option<String> {
+        let h = |x: &str| match x {
+            "Simple" => Heuristic::Simple,
+            "MinModMinPathsMaxVarImp" => Heuristic::MinModMinPathsMaxVarImp,
+            _ => Heuristic::MinModMaxVarImpMinPaths,
+        };
+        let run = |a: &mut Adf| -> Vec<String> {
+            let vs: Vec<Vec<Term>> = if stable {
+                a.stable_nogood(h(heu)).collect()
+            } else {
+                let (sd, rc) = crossbeam_channel::unbounded();
+                a.two_val_nogood_channel(h(heu), sd);
+                rc.iter().collect()
+            };
+            vs.iter().map(|v| tfu(v)).collect()
+        };
+        let twin_name = format!("{p}fresh");
+        let a = self.adf(p)?;
+        let r1 = run(a);
+        let r2 = run(a);
+        let t = self.adf(&twin_name)?;
+        let r3 = run(t);
+        Some(format!("deterministic same-object={} twin={}", (r1 == r2) as u8, (r1 == r3) as u8))
+    }
+
     fn randrepro(&mut self, p: &str, seed: &str, stable: bool, warm: bool) -> Option<String> {
         let s: u64 = seed.parse().ok()?;
         let mut bytes = [0u8; 32];
